@@ -278,7 +278,9 @@ def run_check(pid, tier, seed, nproc=None, only=None):
     for n in merged.notes:
         print("NOTE:", n)
 
-    # ---- replay artefacts for violations not in the known-findings file
+    # ---- replay artefacts for violations not in the known-findings file (stale ones from earlier runs are removed)
+    import shutil as _sh
+    _sh.rmtree(os.path.join(os.environ.get("VT_REPLAY_DIR", os.path.join(VERIF, "replays")), pid), ignore_errors=True)
     seen_keys = set()
     nrep = 0
     for v in unknown:
